@@ -280,14 +280,16 @@ PROPS["C36"] = {
 PROPS["C37"] = {
     "level": "proof",
     "engine": "verus",
-    "technique": "Verus contracts on the extracted Compressor Transducer (exact state-update postconditions) + inductive lemmas over mark-bit sequences",
+    "technique": "Verus contracts on the extracted Compressor Transducer (exact state-update postconditions), on the extracted glue ForwardingMetadata::{calculate_offset_vector, forward} "
+                 "(loop invariants over 512-byte blocks, modular against the contracts of the mark-bit scan and the offset table) + inductive lemmas over mark-bit sequences",
     "anchors": [("Transducer", "src/policy/compressor/forwarding.rs"), ("visit_mark_bit", "src/policy/compressor/forwarding.rs"),
-                ("encode", "src/policy/compressor/forwarding.rs"), ("decode", "src/policy/compressor/forwarding.rs")],
-    "verus": ["compressor_fwd"],
+                ("encode", "src/policy/compressor/forwarding.rs"), ("decode", "src/policy/compressor/forwarding.rs"),
+                ("calculate_offset_vector", "src/policy/compressor/forwarding.rs"), ("forward", "src/policy/compressor/forwarding.rs")],
+    "verus": ["compressor_fwd", "compressor_glue"],
     "functions": ["Transducer::{new, visit_mark_bit, encode, decode} (extracted verbatim)",
-                  "ForwardingMetadata::{new, calculate_offset_vector, forward, has_calculated_forwarding_addresses} (Kani, bounded: 3-block region prefix, <= 3 objects)", "Address: struct, ZERO, from_usize, as_usize, "
-                  "impl Add<ByteSize>, impl Sub<Address> (extracted verbatim, specified through vstd AddSpecImpl/SubSpecImpl)",
-                  "lemmas: lemma_encode_decode, lemma_resume_from_block, lemma_run_prefix, lemma_live_before_bound/monotone, theorem_c37"],
+                  "ForwardingMetadata::{calculate_offset_vector, forward} (extracted; the scan closure is turned into a loop over the scan's contract, `for` over RegionIterator is desugared, see rule_firings)",
+                  "Address: struct, ZERO, from_usize, as_usize, impl Add<ByteSize>, impl Sub<Address> (extracted verbatim, specified through vstd AddSpecImpl/SubSpecImpl)",
+                  "lemmas: lemma_encode_decode, lemma_resume_from_block, lemma_run_prefix, lemma_live_before_bound/monotone, theorem_c37, lemma_scan_safe, lemma_scan_step, lemma_block_step; client_forward"],
     "explanation": "visit_mark_bit/encode/decode/new are proved to implement exactly the integer-level transition `step` and the "
                    "encode/decode functions (machine arithmetic: no-overflow preconditions; bit tricks discharged by bit_vector). Over that "
                    "spec, by induction on the number of objects: starting at the region start and visiting the first/last-word mark bits "
@@ -295,16 +297,23 @@ PROPS["C37"] = {
                    "`to` before object n equals region start + total size of the objects before it (lemma_run_prefix); hence forwarding "
                    "addresses are strictly ordered, non-overlapping and never above the original address (theorem_c37). "
                    "lemma_resume_from_block shows that resuming from the state cached at a 512-byte block start (decode(encode(..))) gives "
-                   "the same result, also when the block boundary falls inside an object. Unbounded in the number and size of objects.",
+                   "the same result, also when the block boundary falls inside an object. GLUE (unit compressor_glue): the real calculate_offset_vector is proved, by a loop "
+                   "invariant over its block loop and one over each mark-bit scan, to leave in every block's offset-vector entry the encoding of the transducer state on reaching that block "
+                   "(for any number of blocks), with visit_mark_bit's no-overflow preconditions discharged from a scan-position invariant (`to` never runs ahead of the scan); the real forward "
+                   "returns `to` after resuming from the cached entry and scanning up to the address; client_forward composes them: forward(start of object n) == region start + live bytes before it, "
+                   "for every layout whose first/last-word bits are in the mark table. Unbounded in the number and size of objects and blocks. Vacuity: three canaries must fail on every run.",
     "bounds": ["none"],
-    "assumptions": ["the scanning glue: ForwardingMetadata::calculate_offset_vector/forward feed visit_mark_bit exactly the set mark bits of the "
-                    "range in ascending address order (scan_non_zero_values, C22) and the offset vector returns what was stored (C20)",
-                    "no-overflow preconditions of visit_mark_bit/encode (to + live bytes <= usize::MAX: addresses inside one region)"],
+    "assumptions": ["contract of the mark-bit scan: scan_non_zero_values presents exactly the set bits of [start, end) to its visitor in ascending order (C22 proves this on bounded windows) -- "
+                    "inlined at the call site by the extraction rule compressor_scan_closure; mark bits are word-aligned addresses",
+                    "the offset vector is an array of independent word fields (C20); Block / RegionIterator arithmetic (align_down: C33) as stated in the unit's ENV",
+                    "the mark table holds exactly the first-word / last-word bits of a well-formed layout (established by CompressorSpace::trace_mark_object + mark_last_word_of_object: not verified)",
+                    "region prefix below usize::MAX - 520; termination of the block loop not verified"],
     "trusted_base": ["usize is 64 bits (global size_of usize == 8)", "BYTES_IN_WORD == 8 re-declared in the unit prelude",
-                     "vstd AddSpecImpl/SubSpecImpl linking of operator impls", "the extraction rewrite rules listed in the evidence"],
-    "not_covered": ["ForwardingMetadata::{calculate_offset_vector, forward, scan_marked_objects, mark_last_word_of_object} closure glue (three Kani harnesses exist in kani/src/c37_glue.rs "
-                    "as experiments: CBMC times out after 25 minutes on the inlined variants and aborts on the modular one, so they are not part of the check)",
-                    "CompressorSpace's use of the forwarding addresses (whole-space)"],
+                     "vstd AddSpecImpl/SubSpecImpl linking of operator impls", "external_body environment: MarkTable (marks_in axioms: well-formed, split, empty; collect), OffsetTable, Block, CompressorRegion, RegionIterator<Block>, CalcFlag",
+                     "the extraction rewrite rules listed in the evidence"],
+    "not_covered": ["a restructured calculate_offset_vector / forward (different loop or closure shape) cannot be matched to the loop invariants and is reported as undecided (exit 2), not decided",
+                    "ForwardingMetadata::{scan_marked_objects, mark_last_word_of_object, release}", "CompressorSpace's use of the forwarding addresses (whole-space)",
+                    "three bounded Kani harnesses of the glue exist in kani/src/c37_glue.rs as experiments only (CBMC times out / aborts)"],
 }
 
 PROPS["C21"] = {
